@@ -2076,6 +2076,11 @@ func (w *Writer) exprConstValue(handle ir.ExpressionHandle) (float64, bool) {
 			return ir.EvalBinaryFloat(k.Op, left, right), true
 		}
 	case ir.ExprUnary:
+		// ir.EvalUnaryFloat complements in 64 bits, which is not the value of
+		// ~x for a 32-bit operand; only negation and logical not are folded.
+		if k.Op != ir.UnaryNegate && k.Op != ir.UnaryLogicalNot {
+			return 0, false
+		}
 		val, ok := w.exprConstValue(k.Expr)
 		if ok {
 			return ir.EvalUnaryFloat(k.Op, val), true
